@@ -933,8 +933,12 @@ class MultiCallIterator(object):
 
     def __getitem__(self, i):
         """
-        Returns the i-th object of the results
+        Returns the i-th object of the results, or the list of the results
+        selected by a slice
         """
+        if isinstance(i, slice):
+            return [self.__get_result(item) for item in self.results[i]]
+
         return self.__get_result(self.results[i])
 
     def __len__(self):
